@@ -153,6 +153,8 @@ void h_run(void) {
     if (!r) break;
   }
   if (npopped != npushed) sim_violation("C13-lost-value", "%d values pushed, %d popped after the final drain", npushed, npopped);
+  mpmc_fifo_destroy(hptr, &fifo); /* teardown: the remaining dummy node is retired, then every record destroyed */
+  hazard_pointer_thread_record_destroy_all(atomic_load(&hp_head));
   sim_probe("nodes_reclaimed", reclaimed_total);
   sim_probe("nodes_reused", reused_total);
   h_lin_verdict("C13-not-linearizable");
